@@ -14,7 +14,7 @@
 
    A register is a `cell` = (the leaf's attribute self.value [UNMASKED], the value of its q wire).
    At power-up value = reset_value but the q wire is 0 (storage.py:89, base.py:334). *)
-From V Require Import Base.PyInt Gen.WireOps Gen.Helpers Gen.Prims Gen.Seq.
+From V Require Import Base.PyInt Gen.WireOps Gen.Helpers Gen.Prims Gen.Seq Spec.C09.
 
 (* ------------------------------------------------------------------ Reg (storage.py:31-110) *)
 Definition cell := (Reg_state * Z)%type.
@@ -123,6 +123,8 @@ Definition pipe_init (ws : list Z) : list cell := map (fun _ => cell0 0) ws.
    pos: r <- And2(a, Not z1); neg: r <- And2(Not a, z1); both: r <- Xor2(a, z1) = four Nand2 (bitwise.py:736-766,
    Nand2 = And2 into a wire of its first operand's width, then Not: bitwise.py:397-422) *)
 Inductive direction := Pos | Neg | Both.
+(* direction = 'pos' | 'neg' | 'both' and the reference machine's name for it *)
+Definition dir_kind (d : direction) : edge_kind := match d with Pos => Rising | Neg => Falling | Both => AnyEdge end.
 Definition nand2_m (wa wr a b : Z) : Z := Not_propagate wr (And2_propagate wa a b).
 Definition xor2_m (wa wb wr a b : Z) : Z :=
   let mid := nand2_m wa wa a b in
@@ -197,3 +199,25 @@ Definition ar_step (w : Z) (s : ar_state) : ar_state :=
   let '(st, o) := AutoReset_clock w (fst s) in
   (st, match o with Some v => v | None => snd s end).
 Definition ar_out (s : ar_state) : Z := snd s.
+
+(* ------------------------------------------------------------------ the same steps on input TUPLES (one tuple per edge),
+   so that a history is a list and a run is a fold *)
+Definition reg_m (w : Z) (he hr : bool) (rv : Z) (c : cell) (i : Z * Z * Z) : cell :=
+  let '(d, e, r) := i in reg_edge w he hr rv c d e r.
+Definition treg_m (wq : Z) (he hr : bool) (c : cell) (i : Z * Z * Z) : cell :=
+  let '(t, e, r) := i in treg_step wq he hr c t e r.
+Definition counter_m (w : Z) (hi hr : bool) (c : cell) (i : Z * Z) : cell :=
+  let '(reset, inc) := i in counter_step w hi hr c reset inc.
+Definition modcounter_m (w wc m : Z) (c : cell) (i : Z * Z) : cell :=
+  let '(reset, inc) := i in modcounter_step w wc m c reset inc.
+Definition stepup_m (w : Z) (hr : bool) (c : cell) (i : Z * Z * Z) : cell :=
+  let '(reset, inc, step) := i in stepup_step w hr c reset inc step.
+Definition delay_m (w : Z) (he hr : bool) (cs : list cell) (i : Z * Z * Z) : list cell :=
+  let '(a, e, r) := i in delay_step w he hr cs a e r.
+Definition pipe_m (ws : list Z) (cs : list cell) (i : list Z * Z) : list cell := pipe_step ws cs (fst i) (snd i).
+Definition srb_m (w : Z) (cs : list cell) (i : Z * Z * Z * Z) : list cell :=
+  let '(left_in, right_in, sl, sr) := i in srb_edge w cs left_in right_in sl sr.
+Definition stack_m (w : Z) (s : stack_state) (i : Z * Z * Z) : stack_state :=
+  let '(din, push, pop) := i in stack_step w s din push pop.
+Definition mem_m (wr : Z) (s : mem_state) (i : Z * Z * Z * Z) : mem_state :=
+  let '(ra, wa, we, wd) := i in mem_step wr s ra wa we wd.
